@@ -16,28 +16,29 @@ Faults outside the engine (a module that does not import, a bad option value, an
 expression, …) are *inputs*: per phase, the exception class that escapes the phase's hook before the
 engine's own work. The `dag` and `execute` phases are the engine M6 (`createDag`, `fromDag`, `buildLoop`).
 Facts taken from the source by the translator: `Generated.buildPhases`, `buildLadder`, `configFailCode`,
-`configHandler`, `unconfigureAfterLadder`, `dagWrapsException`, `collectLogRaises`.
+`configHandler`, `unconfigureAfterLadder`, `dagWrapsException`, `collectLogRaises`, `collectFileCatches`.
 -/
 namespace Pytask
 namespace BuildTop
 open Engine
 
-/-- An exception: an `Exception` subclass with its class name, or a `BaseException` that is not an
-`Exception` (`KeyboardInterrupt`, `SystemExit`, `GeneratorExit`). -/
+/-- An exception: an `Exception` subclass with its class name, or (`base`) a `BaseException` subclass
+that is not an `Exception` — `"SystemExit"`, `"KeyboardInterrupt"`, `"GeneratorExit"`, `"BaseException"`. -/
 inductive Exc
   | exn (cls : String)
-  | base
+  | base (cls : String)
 deriving Repr, DecidableEq, Inhabited
 
 structure Faults where
   configure : Option Exc := none              -- raised inside the configuration `try`
+  importRaises : Option Exc := none           -- raised while a task module is imported (`pytask_collect_file_protocol`)
   phase : String → Option Exc := fun _ => none  -- raised by the named phase before the engine's work
   unconfigure : Option Exc := none            -- raised by a `pytask_unconfigure` implementation
 
 /-- `except (A, B, …)` catches the exception: class named, or the catch-all `Exception`. -/
 def handles (names : List String) : Exc → Bool
   | .exn c => names.contains c || names.contains "Exception"
-  | .base => names.contains "BaseException"
+  | .base c => names.contains c || names.contains "BaseException"
 
 /-- First matching handler of the inner ladder. -/
 def ladderFind (ladder : List (List String × String)) (e : Exc) : Option String :=
@@ -70,7 +71,13 @@ structure PhaseSt where
 def dagExc (e : Exc) : Exc :=
   match e with
   | .exn c => if Generated.dagWrapsException then .exn "ResolvingDependenciesError" else .exn c
-  | .base => .base
+  | .base c => .base c
+
+/-- What `pytask_collect` raises when importing a task module raised `e`: if the collection protocol
+catches `e` (`Generated.collectFileCatches`) the module gets a failed collection report and
+`pytask_collect_log` raises `Generated.collectLogRaises`; otherwise `e` itself escapes. -/
+def importExc (e : Exc) : Exc :=
+  if handles Generated.collectFileCatches e then .exn Generated.collectLogRaises else e
 
 /-- One statement of the inner `try` body. -/
 def runPhase (F : BodyFn) (P : Project) (cfg : Cfg) (picks : List Nat) (fl : Faults) (st : PhaseSt) (name : String) : PhaseSt :=
@@ -86,7 +93,10 @@ def runPhase (F : BodyFn) (P : Project) (cfg : Cfg) (picks : List Nat) (fl : Fau
   else match fl.phase name with
   | some e => { st with exc := some e }
   | none =>
-    if name == "collect" then { st with collected := true }
+    if name == "collect" then
+      match fl.importRaises with
+      | some e => { st with exc := some (importExc e) }
+      | none => { st with collected := true }
     else if name == "execute" then
       match st.dag with
       | none => { st with exc := some (.exn "Exception") }     -- `session.dag` is None
